@@ -604,6 +604,140 @@ theorem resolution_unambiguous_partial {gs : List Record}
   exact key_injective_normalized_partial cfg hH2 (stored_names_normalized cfg hg0 ops k r hg) hn
     (records_keyed_by_own_name cfg hg0 ops k r hg) hk hp
 
+/-! ### names, not store entries: owning one name confers no authority over another -/
+
+omit [DecidableEq κ] in
+/-- names whose reversed segments concatenate to different byte strings have different keys, if
+the hash does not collide on these two pre-images -/
+theorem keys_ne_of_diff {t n : Bytes} (hH : NoHashCollision cfg [t, n]) {kt kn : κ}
+    (ht : getNameKeyPrefix cfg t = .ok kt) (hn : getNameKeyPrefix cfg n = .ok kn)
+    (hdiff : (segments t).reverse.flatten ≠ (segments n).reverse.flatten) : kt ≠ kn := by
+  intro e
+  subst e
+  cases hp1 : preimage t with
+  | error e => simp [getNameKeyPrefix, hp1, Except.map] at ht
+  | ok p1 =>
+    cases hp2 : preimage n with
+    | error e => simp [getNameKeyPrefix, hp2, Except.map] at hn
+    | ok p2 =>
+      exact hdiff ((key_collision_iff_resegmentation cfg hH hp1 hp2).mp (by rw [ht, hn]))
+
+/-- FRAME, on names: a message none of whose target names is a re-segmentation of `n` (same
+reversed concatenation = the key collision of `key_collision`) leaves what `n` resolves to exactly
+as it was — whoever signs it, whatever it does to its own targets.  (Any state; the hash does not
+collide on `n` and the targets.) -/
+theorem message_about_other_names_leaves_name {st st' : State κ} {op : Op} {n : Bytes}
+    (hH : NoHashCollision cfg (n :: op.targets)) (h : step cfg st op = .ok st')
+    (hdiff : ∀ t ∈ op.targets, (segments t).reverse.flatten ≠ (segments n).reverse.flatten) :
+    getRecordByName cfg st' n = getRecordByName cfg st n := by
+  cases hkn : getNameKeyPrefix cfg n with
+  | error e => simp [getRecordByName, hkn]
+  | ok kn =>
+    rw [getRecordByName_eq cfg hkn, getRecordByName_eq cfg hkn]
+    have hne : ∀ t ∈ op.targets, ∀ kt, getNameKeyPrefix cfg t = .ok kt → kn ≠ kt := by
+      intro t ht kt hkt e
+      refine keys_ne_of_diff cfg (hH.mono cfg ?_) hkt hkn (hdiff t ht) e.symm
+      intro x hx
+      rcases List.mem_cons.mp hx with rfl | hx
+      · exact List.mem_cons_of_mem _ ht
+      · rw [List.mem_singleton.mp hx]; exact List.mem_cons_self
+    cases op with
+    | root a nn o r =>
+      obtain ⟨hkeep, hnew⟩ := root_effect cfg h
+      cases hg : get st.recs kn with
+      | some e => exact hkeep kn e hg
+      | none =>
+        cases hg' : get st'.recs kn with
+        | none => rfl
+        | some r' =>
+          rcases hnew kn r' hg' with h1 | ⟨-, t, ht, -, hkt, -⟩
+          · rw [hg] at h1; cases h1
+          · exact absurd rfl (hne t ht kn hkt)
+    | bind pn pa rn ra r =>
+      obtain ⟨name, k0, hnm, hk0, -, -, hframe⟩ := bind_effect cfg h
+      exact hframe kn (hne name (by simp [Op.targets, normalize_eq_normalizeName cfg hnm]) k0 hk0)
+    | modify a nn ad r =>
+      obtain ⟨name, k0, hnm, hk0, -, hframe⟩ := modify_effect cfg h
+      exact hframe kn (hne name (by simp [Op.targets, normalize_eq_normalizeName cfg hnm]) k0 hk0)
+    | delete nn a =>
+      obtain ⟨name, k0, hnm, hk0, -, hframe⟩ := delete_effect cfg h
+      exact hframe kn (hne name (by simp [Op.targets, normalize_eq_normalizeName cfg hnm]) k0 hk0)
+
+/-- the same over every history: messages about other names (no target a re-segmentation of `n`)
+never change what `n` resolves to, whoever signs them -/
+theorem messages_about_other_names_leave_name {n : Bytes} (ops : List Op) : ∀ {st : State κ},
+    NoHashCollision cfg (n :: ops.flatMap Op.targets) →
+    (∀ op ∈ ops, ∀ t ∈ op.targets, (segments t).reverse.flatten ≠ (segments n).reverse.flatten) →
+    getRecordByName cfg (run cfg st ops) n = getRecordByName cfg st n := by
+  induction ops with
+  | nil => intro st _ _; rfl
+  | cons op ops ih =>
+    intro st hH hd
+    have hH' : NoHashCollision cfg (n :: ops.flatMap Op.targets) := hH.mono cfg (by
+      intro x hx
+      rcases List.mem_cons.mp hx with rfl | hx
+      · exact List.mem_cons_self
+      · exact List.mem_cons_of_mem _ (by simp [List.flatMap_cons, hx]))
+    show getRecordByName cfg (run cfg (apply cfg st op) ops) n = _
+    rw [ih hH' (fun o ho => hd o (List.mem_cons_of_mem _ ho))]
+    unfold apply
+    split
+    · rename_i st' hstep
+      refine message_about_other_names_leaves_name cfg (hH.mono cfg ?_) hstep (hd op (by simp))
+      intro x hx
+      rcases List.mem_cons.mp hx with rfl | hx
+      · exact List.mem_cons_self
+      · exact List.mem_cons_of_mem _ (by simp [List.flatMap_cons, hx])
+    · rfl
+
+/-- AUTHORITY, on names: what a name resolves to — owner, restriction, stored name — survives
+every history in which neither the owner of that record (under any spelling of his address) nor
+governance signs anything; whatever names the other signers own and whatever they do with them. -/
+theorem name_changed_only_by_its_owner_or_gov
+    (hC : ∀ a, cfg.canon (cfg.canon a) = cfg.canon a) {st : State κ} {n : Bytes} {e : Record}
+    (ops : List Op) (hH : NoHashCollision cfg (storedNames st ++ ops.flatMap Op.names))
+    (hI : Inv cfg st) (hS : CanonStored cfg st) (hn : getRecordByName cfg st n = some e)
+    (hs : ∀ op ∈ ops, cfg.canon op.signer ≠ e.addr ∧ op.signer ≠ cfg.authority) :
+    getRecordByName cfg (run cfg st ops) n = some e := by
+  obtain ⟨k, hk, hg⟩ := getRecordByName_some cfg hn
+  rw [getRecordByName_eq cfg hk]
+  exact record_persists_without_owner_or_gov cfg hC ops hH hI hS hg hs
+
+/-- "Two different valid names never resolve to the same record, so owning one name never confers
+authority over another", as far as it is true: let `n1`, `n2` resolve (to `e1`, `e2`), let their
+reversed segments concatenate to DIFFERENT byte strings (they are not the two sides of a key
+collision), and let the owner of `n1` be neither the owner of `n2` nor governance.  Then `n1` and
+`n2` are different store entries, and after every history signed — every message of it — by the
+owner of `n1` (any spelling of his address; any messages: on `n1`, on `n2`, on anything), `n2`
+still resolves to the very record `e2`.  (Without the hypothesis on the concatenations the two
+names are one store entry and the owner of `n1` owns `n2`: `collision_confers_authority`.) -/
+theorem owning_one_name_confers_no_authority_over_another
+    (hC : ∀ a, cfg.canon (cfg.canon a) = cfg.canon a) {st : State κ} {n1 n2 : Bytes}
+    {e1 e2 : Record} (ops : List Op)
+    (hH : NoHashCollision cfg (n1 :: n2 :: (storedNames st ++ ops.flatMap Op.names)))
+    (hI : Inv cfg st) (hS : CanonStored cfg st)
+    (h1 : getRecordByName cfg st n1 = some e1) (h2 : getRecordByName cfg st n2 = some e2)
+    (hdiff : (segments n1).reverse.flatten ≠ (segments n2).reverse.flatten)
+    (hown : e1.addr ≠ e2.addr)
+    (hs : ∀ op ∈ ops, cfg.canon op.signer = e1.addr ∧ op.signer ≠ cfg.authority) :
+    getNameKeyPrefix cfg n1 ≠ getNameKeyPrefix cfg n2 ∧
+      getRecordByName cfg (run cfg st ops) n2 = some e2 := by
+  constructor
+  · obtain ⟨k1, hk1, -⟩ := getRecordByName_some cfg h1
+    obtain ⟨k2, hk2, -⟩ := getRecordByName_some cfg h2
+    rw [hk1, hk2]
+    intro e
+    refine keys_ne_of_diff cfg (hH.mono cfg ?_) hk1 hk2 hdiff (by injection e)
+    intro x hx
+    rcases List.mem_cons.mp hx with rfl | hx
+    · exact List.mem_cons_self
+    · rw [List.mem_singleton.mp hx]; exact List.mem_cons_of_mem _ List.mem_cons_self
+  · refine name_changed_only_by_its_owner_or_gov cfg hC ops (hH.mono cfg ?_) hI hS h2 ?_
+    · intro x hx; exact List.mem_cons_of_mem _ (List.mem_cons_of_mem _ hx)
+    · intro op hop
+      obtain ⟨ha, hg⟩ := hs op hop
+      exact ⟨by rw [ha]; exact hown, hg⟩
+
 /-! ### the collision (negation witness) -/
 
 def abcde : Bytes := [97, 98, 99, 46, 100, 101]   -- "abc.de"
@@ -730,6 +864,25 @@ example : NoHashCollision tcfg (storedNames tState ++
 example : NoHashCollision tcfg [abcde, bcdea] := by decide
 example : Inv tcfg tState := inv_reachable tcfg (gs := []) rfl _
 example : Inv wcfg witnessState := inv_reachable wcfg (gs := []) rfl _
+/-- the hypotheses of `owning_one_name_confers_no_authority_over_another` /
+`name_changed_only_by_its_owner_or_gov` / `messages_about_other_names_leave_name` hold on a concrete
+state and history (with the non-injective hash): A owns `abc.de`, B the restricted root `dea`; A
+modifies his own name, tries to modify and delete B's, and binds `bc.de` -/
+def aOps : List Op :=
+  [.modify "A" abcde "A" true, .modify "A" dea "A" false, .delete dea "A", .bind de "A" bc "A" false]
+example : NoHashCollision tcfg (abcde :: dea :: (storedNames tState ++ aOps.flatMap Op.names)) := by
+  decide
+example : CanonStored tcfg tState := by intro k r h; rfl
+example : getRecordByName tcfg tState abcde = some ⟨abcde, "A", false⟩ ∧
+    getRecordByName tcfg tState dea = some ⟨dea, "B", true⟩ := by decide
+example : (segments abcde).reverse.flatten ≠ (segments dea).reverse.flatten := by decide
+example : ∀ op ∈ aOps, tcfg.canon op.signer = "A" ∧ op.signer ≠ tcfg.authority := by decide
+/-- … and the history is no no-op: A's own name did change, a new name exists -/
+example : getRecordByName tcfg (run tcfg tState aOps) abcde = some ⟨abcde, "A", true⟩ ∧
+    (getRecordByName tcfg (run tcfg tState aOps) (bc ++ dot :: de)).isSome = true := by decide
+example : NoHashCollision tcfg (dea :: [Op.modify "G" abcde "C" true, .delete abcde "C"].flatMap Op.targets) ∧
+    ∀ op ∈ [Op.modify "G" abcde "C" true, .delete abcde "C"], ∀ t ∈ op.targets,
+      (segments t).reverse.flatten ≠ (segments dea).reverse.flatten := by decide
 /-- the idealised hypothesis of the earlier statements implies the finite one -/
 example (hH : Function.Injective cfg.H) (names : List Bytes) : NoHashCollision cfg names :=
   noHashCollision_of_injective cfg hH names
